@@ -2,11 +2,12 @@ SPEC = {
     "id": "C15",
     "level": "other",
     "sidecars": ["infer_redirection"],
-    "functions": ["ural/infer_redirection.py:infer_redirection"],
+    "functions": ["ural/infer_redirection.py:infer_one_redirection", "ural/infer_redirection.py:infer_redirection"],
     "bounded": ["bcheck.c15"],
     "explanation": (
-        "Deductive (all strings, pyvc): infer_redirection TERMINATES - every recursive call is made on a strictly shorter string (recursion measure len(url), "
-        "obligation dec@rec), so the depth is bounded by the length of the input whatever the URL embeds; it raises nothing (group(1) / group(2) are "
+        "Deductive (all strings, pyvc): one step (infer_one_redirection) returns its input or a STRICTLY SHORTER string; infer_redirection repeats the step in a "
+        "loop that TERMINATES by the measure len(url) (obligation dec: no recursion any more, so the nesting depth is not bounded by the interpreter's call stack); "
+        "the step raises nothing (group(1) / group(2) are "
         "mandatory groups of the real pattern, read from its sre tree; urljoin's ValueError is caught; redirection_split[1] is guarded by len > 1); the "
         "result is never longer than the input and, for recursive=False, is the input itself or a strictly shorter target. "
         "Bounded (bcheck/c15.py with the independent oracle bcheck/ref_c15.py): the provenance clause ('input itself or a target literally present in the "
